@@ -497,6 +497,43 @@ ROUND_HOISTERS = [
 # ----------------------------------------------------------------------
 # T3 the overflow policy of a bounded float format is read off BOTH probes
 
+def f5_prober_signed_bounds(ctx: Ctx):
+    """The description `_Prober.describe` hands to the emitter states four thresholds, two per sign: the largest value and
+    the first value past it.  A bounded fixed-point format need not be symmetric (two's complement; an MPB format with its
+    own `neg_maxval`), so each is asked of the format *with its sign*: the argument filling a field `neg_<q>` of `_Source`
+    is `ctx.<q>(s=True).as_real()`, the one filling `<q>` is `ctx.<q>().as_real()` -- never derived from the other
+    sign's.  (The emitter and the prober's own consistency test both read the description, so they cannot see this.)"""
+    q = '_Prober.describe'
+    fn = ctx.fn(OVERFLOW, q)
+    cdef = ctx.repo.cls(OVERFLOW, '_Source')
+    fields = [s.target.id for s in cdef.body if isinstance(s, ast.AnnAssign) and isinstance(s.target, ast.Name)]
+    builds = [k for k in calls_in(fn) if call_name(k) == '_Source']
+    if len(builds) != 1:
+        raise ShapeError(f'_Prober.describe: {len(builds)} constructions of _Source')
+    b = builds[0]
+    given = dict(zip(fields, b.args))
+    given.update({k.arg: k.value for k in b.keywords if k.arg})
+    defs: dict[str, list[ast.AST]] = {}
+    for st in ast.walk(fn):
+        if isinstance(st, ast.Assign) and len(st.targets) == 1 and isinstance(st.targets[0], ast.Name):
+            defs.setdefault(st.targets[0].id, []).append(st.value)
+    n = 0
+    for quantity in ('maxval', 'infval'):
+        for neg in (False, True):
+            f = ('neg_' if neg else '') + quantity
+            if f not in given:
+                raise ShapeError(f'_Source has no field `{f}`')
+            e = given[f]
+            src = defs.get(e.id, []) if isinstance(e, ast.Name) else [e]
+            want = (f'ctx.{quantity}(s=True).as_real()',) if neg else (f'ctx.{quantity}().as_real()', f'ctx.{quantity}(s=False).as_real()')
+            n += 1
+            ctx.check(len(src) == 1 and norm(src[0]) in want, OVERFLOW, src[0] if src else b, q, f'`{f}` of the description is asked of the format with its sign (`{want[0]}`)',
+                      f'`{f}` is `{norm(src[0]) if src else "?"}`: for MPBFixedContext(-1, 100, RNE, SATURATE, neg_maxval=-200) under early_check=True the threshold below zero is -201, '
+                      'not the mirror of the one above; -199 is representable and the lowered program returns -200')
+    if n != 4:
+        raise ShapeError('prober thresholds: table shrank')
+
+
 def t3_overflow_policy(ctx: Ctx):
     """`_overflow_policy` rounds a value past each bound and names the policy: infinite (+inf and -inf), NaN (both NaN),
     saturating (each bound kept, with its sign).  Anything asymmetric -- a substitute on one side -- has no fixed-point
@@ -724,6 +761,7 @@ RULES = [
     Rule('C10.T6', 'no addition or subtraction is moved across a round-toward-negative scope (its rounding decides the sign of a zero sum)', t6_zero_sum_scopes, 8, 'T'),
     Rule('C10.T5', 'special-value unfolding sheds the infinity rule only where no finite operand reaches the infinity (either sign, random bits)', t5_shed_rules, 1, 'T'),
     Rule('C10.F3', 'a rebuilt format / context receives every carried-over parameter under its own name (no swapped or shifted arguments)', f3_rebuild_parameters, 30, 'F'),
+    Rule('C10.F5', 'the four thresholds the overflow prober describes are each asked of the format with their own sign', f5_prober_signed_bounds, 4, 'F'),
     Rule('C10.P2', 'an analysis handed to a lowering rewriter along with a function is the analysis of that function', analysis_pairing((T + 'float_to_fixed.py', T + 'unfold_overflow.py', T + 'unfold_special.py', T + 'unfold_neg_zero.py', T + 'round_elim.py', T + 'round_insert.py', T + 'rescale_fixed.py'), 10), 10, 'P'),
     Rule('C10.T1', 'overflow unfolding: emitter and verifier use the same (operand, comparator, threshold) pairs; strict for maxval, non-strict for infval', t1_threshold_pairing, 13, 'T,F'),
     Rule('C10.X1', 'block rewriters refuse what they cannot reproduce: unknown context first, class ladders end in Declined', x1_refusal_defaults, 30, 'X,P'),
@@ -766,6 +804,9 @@ MUTANTS = [
     Mutant('wrap-not-refused', NEGZERO, "    if isinstance(ctx, MPBFixedContext) and ctx.overflow is OverflowMode.WRAP:\n        return False", "    if isinstance(ctx, MPBFixedContext) and ctx.overflow is OverflowMode.SATURATE:\n        return False", 'C10.T4'),
     Mutant('sign-survives-respelled', NEGZERO, "    return not any(v is not None and not v.is_nar() and v.is_zero() for v in subs)", "    for v in subs:\n        if v is not None and not v.is_nar() and v.is_zero():\n            return False\n    return True", 'C10.T4',
            'the same table', expect='silent'),
+    Mutant('negative-early-threshold-mirrored', T + 'unfold_overflow.py', "            neg_infval = ctx.infval(s=True).as_real()\n", "            neg_infval = RealFloat(s=True, x=infval)\n", 'C10.F5',
+           'seeded change C10g: an asymmetric bounded fixed-point format under early_check=True'),
+    Mutant('negative-bound-mirrored', T + 'unfold_overflow.py', "            neg_maxval = ctx.maxval(s=True).as_real()\n", "            neg_maxval = ctx.maxval(s=False).as_real()\n", 'C10.F5'),
     Mutant('overflow-sites-classified-on-another-function', T + 'unfold_overflow.py', "        class_info = ValueClassInfer.analyze(func)\n        return _UnfoldOverflowInstance(func, eval_info, class_info).list_sites(within)",
            "        class_info = ValueClassInfer.analyze(func)\n        return _UnfoldOverflowInstance(Simplify.apply(func), eval_info, class_info).list_sites(within)", 'C10.P2'),
     Mutant('saturation-read-off-one-probe', F2F, "        if pos.as_real() == maxval and neg.as_real() == neg_maxval:", "        if pos.as_real() == maxval:", 'C10.T3', 'seeded change C10b'),
